@@ -1,0 +1,17 @@
+//go:build verif
+
+// Contracts for the gowp verifier (/verif). Comment-only file: compiled only with -tags verif and
+// contributes no code either way.
+
+package peer
+
+//@ // ---- cooperative close of a taproot channel: the musig2 session that signs the closing transaction is created with the tweak of THIS
+//@ // ---- channel's funding output - the tapscript root tweak when the channel has one (overlay channels), plain BIP-86 only when it has
+//@ // ---- none - over the funding output, with the peer's nonce; otherwise both sides build the same transaction but the combined
+//@ // ---- signature does not verify
+//@ func (m *MusigChanCloser) ProposalClosingOpts
+//@   props C17
+//@   site call NewPartialMusigSession: assert arg(0) == *m.remoteNonce && arg(5) == lnwallet.RemoteMusigCommit &&
+//@        arg(6).isSome == ret(State).TapscriptRoot.isSome && arg(3) == m.channel.Signer && arg(4) == ret(FundingTxOut)
+//@   site call FinalizeSession: assert arg(1) == *m.localNonce
+//@   ensures result1 == nil ==> called(NewPartialMusigSession) && ret(FinalizeSession) == nil
